@@ -54,7 +54,8 @@ CHECKS = {
             "alignment of every payload file, pad length == gap, pad marking, piece count and pieces."),
     "C16": ("exploration", "3.C16", "differential monitor: reported percentage vs exact reference fraction",
             "As C04 with 0-4 simultaneous damages; the reported percentage must equal the reference share of bytes in "
-            "verifying pieces to 1e-9."),
+            "verifying pieces to 1e-9.  Includes sparse payloads: a file with an island of zero bytes is removed or cut so that "
+            "whole all-zero pieces are absent; read as zeros they hash to the recorded values and count."),
     "C20": ("exploration", "3.C20", "differential monitor: CLI flags (all positions) vs configuration file vs library keywords",
             "Random option subsets are supplied through the three routes (CLI with path first/middle/last/swallowed "
             "by each list flag/implicit create and flag aliases); every option must land in its documented field "
@@ -98,7 +99,8 @@ CHECKS = {
             "Reference-encoded hostile metafiles ('..', '.', '', absolute, embedded separators, deep chains in name and "
             "directory components; v1/v2/hybrid) with matching candidates are rebuilt under an audit hook that blocks "
             "and records any write whose resolved target is outside the destination; no such event may occur and the "
-            "outside snapshot must be unchanged."),
+            "outside snapshot must be unchanged.  Also: components that add no level in front of a climb, and two entries "
+            "that resolve to one destination path with a candidate each."),
 }
 
 PENDING = {}
